@@ -89,10 +89,10 @@ func init() {
 // concreteTime rebuilds a time.Time from its wall/ext encoding (UTC).
 func concreteTime(wall uint64, ext int64) (time.Time, bool) {
 	const (
-		nsecMask        = 1<<30 - 1
-		nsecShift       = 30
-		unixToInternal  = (1969*365 + 1969/4 - 1969/100 + 1969/400) * 86400
-		wallToInternal  = (1884*365 + 1884/4 - 1884/100 + 1884/400) * 86400
+		nsecMask       = 1<<30 - 1
+		nsecShift      = 30
+		unixToInternal = (1969*365 + 1969/4 - 1969/100 + 1969/400) * 86400
+		wallToInternal = (1884*365 + 1884/4 - 1884/100 + 1884/400) * 86400
 	)
 	nsec := int64(wall & nsecMask)
 	var sec int64
